@@ -314,10 +314,8 @@ func runC09(c *core.Ctx) {
 			recv := core.Render(ci.Common().Args[0])
 			fromOld := strings.Contains(recv, "next(range(t.balTable))")
 			var loopGuardsOnly = true
-			for _, g := range core.GuardsAt(in.Block()) {
-				if !strings.Contains(g.Str, "next(range(") {
-					loopGuardsOnly = false
-				}
+			if len(core.SkipFilters(in.Block())) > 0 {
+				loopGuardsOnly = false
 			}
 			c.Check("release-pass", fmt.Sprintf("BalTableReload:release#%d", nRel), in.Pos(), fromOld && loopGuardsOnly,
 				"the release pass must release every balancer remaining in the old table unconditionally (receiver: "+recv+"; guards: "+strings.Join(core.GuardStrs(in.Block()), " && ")+")")
@@ -353,10 +351,7 @@ func runC09(c *core.Ctx) {
 			continue
 		}
 		var extra []string
-		for _, g := range core.GuardsAt(calls[0].(ssa.Instruction).Block()) {
-			if strings.Contains(g.Str, "rangeindex") || strings.Contains(g.Str, "next(range(") {
-				continue
-			}
+		for _, g := range core.SkipFilters(calls[0].(ssa.Instruction).Block()) {
 			if g.Pol && strings.HasSuffix(g.Str, "#1") && strings.Contains(g.Str, "clusterBackend[") {
 				continue
 			}
@@ -407,10 +402,8 @@ func runC09(c *core.Ctx) {
 		ok := false
 		for _, ci := range core.Calls(fn, spec.callee) {
 			loopOnly := true
-			for _, g := range core.GuardsAt(ci.(ssa.Instruction).Block()) {
-				if !strings.Contains(g.Str, "rangeindex") && !strings.Contains(g.Str, "builtin:len(") {
-					loopOnly = false
-				}
+			if len(core.SkipFilters(ci.(ssa.Instruction).Block())) > 0 {
+				loopOnly = false
 			}
 			ok = loopOnly
 		}
